@@ -30,8 +30,8 @@ SNAP_FIELDS = ("particle_type", "positions", "boxlength", "boxbounds", "realboun
 NL_PATHS = ("neighborlist.dat", "nl_a.dat", "nl_b.dat")
 VOR_PREFIXES = ("vor_a", "vor_b")
 OUT = {
-    "csv": ("out_a.csv", "out_b.csv"),
-    "npy": ("res_a.npy", "res_b.npy", "res_c"),      # np.save appends .npy to a bare name
+    "csv": ("out_a.csv", "out_b.csv", "out.v2.csv"),
+    "npy": ("res_a.npy", "res_b.npy", "res_c", "res.v2"),      # np.save appends .npy to a bare name
     "txt": ("res_a.dat", "res_b.txt", "res_a.npy"),  # .dat / .txt switch on the text branch of boo_3d
     "prefix": ("pre_a", "pre_b", ""),
 }
@@ -60,8 +60,11 @@ def dirstate(root):
 
 def same_bits(a, b):
     if isinstance(a, np.ndarray):
-        return isinstance(b, np.ndarray) and a.dtype == b.dtype and a.shape == b.shape and \
-            np.ascontiguousarray(a).tobytes() == np.ascontiguousarray(b).tobytes()
+        if not (isinstance(b, np.ndarray) and a.dtype == b.dtype and a.shape == b.shape):
+            return False
+        if a.dtype == object:      # bytes of an object array are pointers: compare the elements
+            return all(bool(x == y) for x, y in zip(a.ravel(), b.ravel()))
+        return np.ascontiguousarray(a).tobytes() == np.ascontiguousarray(b).tobytes()
     if isinstance(a, dict):
         return isinstance(b, dict) and list(a.keys()) == list(b.keys()) and all(same_bits(a[k], b[k]) for k in a)
     if isinstance(a, (list, tuple)):
@@ -548,8 +551,14 @@ class World(WorldBase):
                     self.files.pop(p)        # overwritten by something that is not a registered input kind
         depth = 1 + max([self.pool[n].depth for n in self.refs(op.get("args", {})) if n in self.pool] +
                         ([self.pool[op["obj"]].depth] if "obj" in op and op["obj"] in self.pool else []) + [0])
-        for suffix, kind, value, tag in a.exports(self, op, res):
+        exported = a.exports(self, op, res)
+        for suffix, kind, value, tag in exported:
             self.add(f"{a.prefix}{oid}{suffix}", kind, value, tag, depth, oid)
+        if not exported and not self.replica:
+            # results nobody consumes are still held by the client that got them
+            held = [x for x in (res if isinstance(res, (list, tuple)) else [res]) if isinstance(x, np.ndarray)]
+            if held:
+                self.add(f"H{oid}", "arr", held, {"role": "held", "result": True}, depth, oid)
         if "obj" in op and a.sets_prereq and op["obj"] in self.pool:
             self.pool[op["obj"]].tag["prereq_done"] = oid
 
@@ -576,11 +585,19 @@ class World(WorldBase):
             else:
                 if not same_bits(e.base, e.value):
                     if e.tag.get("result") and name not in used and not name.split(".")[0] in {n.split(".")[0] for n in used}:
-                        # an earlier *result* changed behind the caller's back (aliasing with
-                        # an object's state): not an argument of this call; recorded, re-based
-                        self.ctx.probe("earlier_result_changed_not_passed")
-                        e.base = copy.deepcopy(e.value)
-                        continue
+                        # an earlier *result* changed although it was not passed to this call
+                        producer = self.history.get(e.src, {})
+                        same_object = "obj" in op and producer.get("obj") == op["obj"]
+                        if same_object:
+                            # a method updating state that an earlier result of the same object
+                            # aliases: recorded, re-based, not judged
+                            self.ctx.probe("earlier_result_changed_by_own_object")
+                            e.base = copy.deepcopy(e.value)
+                            continue
+                        raise Violation(f"C18/I2-earlier-result-changed:{tag}:{producer.get('ad', '?')}",
+                                        f"{name}, returned earlier by {producer.get('ad', '?')} and still held by its caller, changed during "
+                                        f"{tag}, which was not given it: {describe_change(e.base, e.value)}; the same earlier call no longer "
+                                        f"'returned' what it returned; args={self.brief(op)}")
                     raise Violation(f"C18/I1-mutated:{tag}:{e.tag.get('role', e.kind)}",
                                     f"{name} changed during the call: {describe_change(e.base, e.value)}; args={self.brief(op)}")
         for label, obj, base in self.defaults:
